@@ -223,6 +223,11 @@ class C20(Prop):
         for e in tot["not_in_table"]:
             broken.append("race detector reported a race that is NO conflict of the access table (extractor misses an access): "
                           "%s %s x %s  [%s]" % (e["key"], e["kindA"], e["kindB"], e["functions"]))
+            # ... and the report is a schedule on which two goroutines DID touch that field without a common lock: the
+            # lockset theorem's verdict for the regenerated table ("these two never conflict": per-object state) is refuted by it
+            vs.append(Violation("data race on %s between %s and %s, which the access table takes for accesses to different objects: %s"
+                                % (e["key"], e["kindA"], e["kindB"], e["functions"]), stream="race",
+                                detail={"kinds": [e["kindA"], e["kindB"]], "n": e["n"], "finding": None}))
         for e in tot["unmapped"]:
             vs.append(Violation("data race outside the tracked state: " + e["functions"], stream="race",
                                 detail={"kinds": [e["kindA"], e["kindB"]], "n": e["n"], "finding": None}))
